@@ -331,7 +331,13 @@ func c07Order(c *Ctx, d *Dispatcher) {
 				}
 			}
 		}
-		okLoop, why := c.countingLoopOver(hit.Fn, at)
+		okLoop, why := false, ""
+		if hit.Full {
+			// `for _, e := range list.Array()`: index -1+1, +1 per iteration, bounded by the slice's length (loopVisitsAll)
+			okLoop = true
+		} else {
+			okLoop, why = c.countingLoopOver(hit.Fn, at)
+		}
 		c.R.Check(rule, cons+":ascending", c.P.InstrPos(hit.Call), okLoop, "elements must be evaluated in source order: "+why)
 		// appended in the same iteration, in order
 		app := false
